@@ -295,7 +295,7 @@ func EmittedEvents(fn *ssa.Function) *Emitted {
 				return
 			}
 			seen[v] = true
-			for _, e := range x.Edges {
+			for _, e := range ssax.FeasibleEdges(x) {
 				visit(e, at)
 			}
 		case *ssa.UnOp:
